@@ -57,6 +57,8 @@ def gen_run(rng, tier):
     scn = gen.gen_run_scenario(rng, tier, nfiles=nfiles, lines=rng.choice([3, 20, 200]),
                                constraint=0.0, empty=0.1)
     scn['max_parallel_tasks'] = rng.choice([0, 1, 2, 3, 4, 8, 16])
+    if rng.random() < 0.2:
+        scn['_foreign_lookup'] = rng.choice([1, 2, 5])
     if rng.random() < 0.3:
         # some registrations opt out of the (absent) file-level constraint: whatever mix of
         # flags a file's searches have, it stays ONE file with ONE task
@@ -100,6 +102,10 @@ def run_real(scn):
     try:
         built = S.Built(scn, tmpdir)
         fs = built.searcher()
+        if scn.get('_foreign_lookup'):
+            # asking the catalog about paths that were never registered registers nothing
+            for k in range(scn['_foreign_lookup']):
+                fs.catalog.get_source_id(os.path.join(tmpdir, f'never-registered-{k}.log'))
         npar = fs.num_parallel_tasks
         obs = S.run_searcher(built, fs, S.scenario_K(scn))
         recs = []
